@@ -77,6 +77,7 @@ DEFAULT_PROFILE: Dict[str, Any] = {
     'imports_last': False,    # every module defines first and imports at the bottom (so a module that is read while half built
                               # - import cycles - has already defined everything it defines itself)
     'back_edge_bottom': False,  # cyclic worlds: the imports that close a cycle sit at the bottom of the module, after every definition
+    'prefer_local': 0.0,      # probability per import statement of importing only names the target module defines itself
     'inner_defs': 0.0,        # probability per function of local definitions in its body (plain or async function): never documented
     'var_ann': 0.0,           # probability that a variable is annotated with a class visible in its scope
     'attr_pool': 0.0,         # probability per class that its attributes come from a small name pool, as class variable,
@@ -478,6 +479,11 @@ class _Gen:
             return None
         forms: List[Tuple[str, float]] = []
         importable = [n for n in tns if n not in ns and not self._clash(mod, n)]
+        if p.get('prefer_local', 0) and rng.sub('prefer-local').chance(p['prefer_local']):
+            # import what the target module defines itself rather than what it imported (no chains)
+            own_names = [n for n in importable if self._routes.get((target, n)) == 'local']
+            if own_names:
+                importable = own_names
         if p.get('rebind_same', 0) and rng.sub('rebind').chance(p['rebind_same']):
             # importing a name a second time (it already denotes the same object here) is harmless in Python
             importable += [n for n in tns if n in ns and ns[n] == tns[n] and self._routes.get((mod, n)) in ('from', 'star')]
